@@ -93,3 +93,18 @@ Example submatrix_gather_moves_unselected_columns :
              mget NumQ (sa s') 0 0 = 1 /\ mget NumQ (sa s') 0 2 = 0 /\ mget NumQ (sa s') 2 0 = 0 /\ mget NumQ (sa s') 2 2 = 1
   | _ => False end.
 Proof. vm_compute. repeat split; reflexivity. Qed.
+
+(* ---- round 3: a history on binary64 — an environment that refills every caller-supplied buffer with
+   stale data before each call; the results are those of the fresh calls (Props.history_independence) *)
+From ADV Require Import C04.ProofsHist.
+Example history_on_floats :
+  let D := [[7;-3];[0.5;9]]%float in
+  let env := fun _ : list (result (A:=float)) => mkH (mkBufs (Some D) (Some D) (Some [5;5]%float) None) (Some D) (Some [9;9]%float) in
+  let cs := [CInv true InvPD (Some [false;true]) [[4;2];[2;5]]%float;
+             CInv false InvPlain None [[1;5];[2;1]]%float;
+             CBackSub [[2;1];[0;4]]%float (Some [4;8]%float);
+             CDet [[1;5];[2;1]]%float;
+             CDetPD false [[4;2];[2;5]]%float] in
+  run_hist NumF (fun x => x) 2 env [] cs = map (exec NumF (fun x => x) 2 (fresh (A:=float))) cs /\
+  nth 2 (run_hist NumF (fun x => x) 2 env [] cs) (RDet 0%float) = RVec [1;2]%float.
+Proof. vm_compute. split; reflexivity. Qed.
